@@ -41,11 +41,11 @@ Norm(s) == SubSeq(s, FirstOneFrom(s, 1), Len(s))
 IsNat(b) == b = <<>> \/ b[1] = 1
 
 \* ---- ints <-> naturals (ints below 2^30)
-RECURSIVE FromInt(_)
-FromInt(i) == IF i = 0 THEN <<>> ELSE Append(FromInt(i \div 2), i % 2)
-RECURSIVE ToIntAcc(_, _, _)
-ToIntAcc(b, i, acc) == IF i > Len(b) THEN acc ELSE ToIntAcc(b, i + 1, 2 * acc + b[i])
-ToInt(b) == ToIntAcc(b, 1, 0)          \* any bit sequence of value < 2^31
+RECURSIVE FromIntR(_)
+FromIntR(i) == IF i = 0 THEN <<>> ELSE Append(FromIntR(i \div 2), i % 2)
+FromInt(i) == FromIntR(i)
+TwiceP(acc, bit) == 2 * acc + bit
+ToInt(b) == FoldLeft(TwiceP, 0, b)      \* any bit sequence of value < 2^31 (evaluated natively)
 Small(b) == Len(b) <= 29
 
 \* ---- width-w views
@@ -64,34 +64,52 @@ Dec1(b) == LET j == LastOneUpTo(b, Len(b))                \* b > 0
            IN  Norm(SubSeq(b, 1, j - 1) \o <<0>> \o Ones(Len(b) - j))
 
 \* ---- comparison: -1, 0, 1
-RECURSIVE CmpFrom(_, _, _)
-CmpFrom(a, b, i) == IF i > Len(a) THEN 0
-                    ELSE IF a[i] = b[i] THEN CmpFrom(a, b, i + 1)
-                    ELSE IF a[i] < b[i] THEN -1 ELSE 1
+NotZeroInt(x) == x # 0
+CmpFrom(a, b, i) ==         \* equal lengths: sign of the first differing position
+    LET d == [k \in 1..Len(a) |-> a[k] - b[k]]
+        j == IF Len(a) = 0 THEN 0 ELSE SelectInSubSeq(d, 1, Len(a), NotZeroInt)
+    IN  IF j = 0 THEN 0 ELSE d[j]
 Cmp(a, b) == IF Len(a) < Len(b) THEN -1
              ELSE IF Len(a) > Len(b) THEN 1 ELSE CmpFrom(a, b, 1)
 Lt(a, b)  == Cmp(a, b) = -1
 Leq(a, b) == Cmp(a, b) <= 0
 
-\* ---- addition / subtraction on equal-width vectors, LSB upward
-RECURSIVE AddV(_, _, _, _, _)
-AddV(a, b, i, c, acc) ==
-    IF i = 0 THEN (IF c = 1 THEN <<1>> \o acc ELSE acc)
-    ELSE LET s == a[i] + b[i] + c IN AddV(a, b, i - 1, s \div 2, <<s % 2>> \o acc)
-RECURSIVE SubV(_, _, _, _, _)
-SubV(a, b, i, br, acc) ==
-    IF i = 0 THEN acc
-    ELSE LET d == a[i] - b[i] - br
-         IN  SubV(a, b, i - 1, IF d < 0 THEN 1 ELSE 0, <<(d + 2) % 2>> \o acc)
+\* ---- addition / subtraction.  TLC pays for recursion depth, so wide values are
+\* cut in 24-bit limbs (TLC integers), least significant limb first.
+LimbBits == 24
+LimbBase == 16777216
+P2T == [k \in 0..30 |-> Pow2Int(k)]
+NLimbs(w) == (w + LimbBits - 1) \div LimbBits
+\* limbs of a width-w vector
+LimbsOf(v) ==
+    LET w == Len(v)
+    IN  [i \in 1..NLimbs(w) |->
+            ToInt(SubSeq(v, Max2(1, w - i * LimbBits + 1), w - (i - 1) * LimbBits))]
+IntBits(x, n) == [k \in 1..n |-> (x \div P2T[n - k]) % 2]            \* n-bit vector of x < 2^n
+\* vector of width LimbBits * Len(ls) from limbs
+RECURSIVE VecOfLimbs(_, _)
+VecOfLimbs(ls, i) == IF i = 0 THEN <<>> ELSE IntBits(ls[i], LimbBits) \o VecOfLimbs(ls, i - 1)
+RECURSIVE AddL(_, _, _, _)
+AddL(la, lb, i, c) ==       \* la, lb same length; returns limbs, one more if there is a final carry
+    IF i > Len(la) THEN (IF c = 1 THEN <<1>> ELSE <<>>)
+    ELSE LET t == la[i] + lb[i] + c IN <<t % LimbBase>> \o AddL(la, lb, i + 1, t \div LimbBase)
+RECURSIVE SubL(_, _, _, _)
+SubL(la, lb, i, br) ==      \* la >= lb as numbers (or modulo the width)
+    IF i > Len(la) THEN <<>>
+    ELSE LET t == la[i] - lb[i] - br
+         IN  <<IF t < 0 THEN t + LimbBase ELSE t>> \o SubL(la, lb, i + 1, IF t < 0 THEN 1 ELSE 0)
+LimbsToVec(ls) == VecOfLimbs(ls, Len(ls))
+\* equal-width vector addition (result one limb group wider) and subtraction (modulo the width)
+AddVec(a, b) == LimbsToVec(AddL(LimbsOf(a), LimbsOf(b), 1, 0))
+SubVec(a, b) == Low(LimbsToVec(SubL(LimbsOf(a), LimbsOf(b), 1, 0)), Len(a))
 
 Add(a, b) == IF Small(a) /\ Small(b) THEN FromInt(ToInt(a) + ToInt(b))
-             ELSE LET w == Max2(Len(a), Len(b))
-                  IN  Norm(AddV(Pad(a, w), Pad(b, w), w, 0, <<>>))
+             ELSE LET w == Max2(Len(a), Len(b)) IN Norm(AddVec(Pad(a, w), Pad(b, w)))
 Sub(a, b) == IF Small(a) THEN FromInt(ToInt(a) - ToInt(b))          \* a >= b
-             ELSE LET w == Len(a) IN Norm(SubV(a, Pad(b, w), w, 0, <<>>))
-\* (a - b) modulo 2^w, as a natural
-SubMod(a, b, w) == Norm(SubV(Low(a, w), Low(b, w), w, 0, <<>>))
-AddMod(a, b, w) == Norm(Low(AddV(Low(a, w), Low(b, w), w, 0, <<>>), w))
+             ELSE LET w == Len(a) IN Norm(SubVec(a, Pad(b, w)))
+\* (a - b) modulo 2^w, (a + b) modulo 2^w, as naturals
+SubMod(a, b, w) == Norm(SubVec(Low(a, w), Low(b, w)))
+AddMod(a, b, w) == Norm(Low(AddVec(Low(a, w), Low(b, w)), w))
 
 \* ---- multiplication by a small int and long division
 RECURSIVE MulAcc(_, _, _, _)
